@@ -493,91 +493,100 @@ func TestCallerField(t *testing.T) {
 			hist = append(hist, "RemoveKnownPathMapping(cwd)")
 			ms = append(ms[:1], ms[2:]...)
 		}
-		flagPath := rapid.IntRange(0, 5).Draw(t, "privacyPathFlag") != 0
-		flags := (vlib.BaseFlags | slog.Lcaller) &^ (slog.Lprivacypath | slog.Lprivacypathregexp)
-		if flagPath {
-			flags |= slog.Lprivacypath
-		}
-		slog.SetFlags(flags)
-		format := rapid.SampledFrom([]string{"json", "logfmt", "color"}).Draw(t, "format")
-		log := vlib.NewEventLog()
-		w := vlib.NewRec(log, 1, 0)
-		lg := slog.New("cf").SetWriter(w).SetErrorWriter(w).SetLevel(slog.AlwaysLevel)
-		switch format {
-		case "json":
-			lg.SetJSONMode(true)
-		case "logfmt":
-			lg.SetColorMode(false)
-		}
-		lg.LogAttrs(context.Background(), slog.InfoLevel, "caller probe")
-		p := log.Writes()[0].Payload
-		var file string
-		switch format {
-		case "json":
-			o, err := vlib.DecodeJSONRecord(p)
-			if err != nil {
-				t.Fatalf("C18: %v: %q", err, p)
+		// one or two records from the very same call statement, the privacy flag drawn anew for each (a caller
+		// resolved under the other flag value must not be reused)
+		rounds := rapid.SampledFrom([]int{1, 2, 2}).Draw(t, "recordsFromTheSameCallSite")
+		for round := 0; round < rounds; round++ {
+			flagPath := rapid.IntRange(0, 5).Draw(t, "privacyPathFlag") != 0
+			if round == 0 && rounds == 2 {
+				flagPath = rapid.Bool().Draw(t, "firstRecordPrivacyPathFlag")
 			}
-			c, _ := o.Vals["caller"].(*vlib.JObj)
-			if c != nil {
-				file, _ = c.Vals["file"].(string)
+			flags := (vlib.BaseFlags | slog.Lcaller) &^ (slog.Lprivacypath | slog.Lprivacypathregexp)
+			if flagPath {
+				flags |= slog.Lprivacypath
 			}
-		case "logfmt":
-			pairs, err := vlib.ParseLogfmtRecord(p)
-			if err != nil {
-				t.Fatalf("C18: %v: %q", err, p)
+			slog.SetFlags(flags)
+			format := rapid.SampledFrom([]string{"json", "logfmt", "color"}).Draw(t, "format")
+			log := vlib.NewEventLog()
+			w := vlib.NewRec(log, 1, 0)
+			lg := slog.New("cf").SetWriter(w).SetErrorWriter(w).SetLevel(slog.AlwaysLevel)
+			switch format {
+			case "json":
+				lg.SetJSONMode(true)
+			case "logfmt":
+				lg.SetColorMode(false)
 			}
-			for _, pr := range pairs {
-				if pr.Key == "caller.file" {
-					file = pr.Str
+			lg.LogAttrs(context.Background(), slog.InfoLevel, "caller probe")
+			p := log.Writes()[0].Payload
+			var file string
+			switch format {
+			case "json":
+				o, err := vlib.DecodeJSONRecord(p)
+				if err != nil {
+					t.Fatalf("C18: %v: %q", err, p)
+				}
+				c, _ := o.Vals["caller"].(*vlib.JObj)
+				if c != nil {
+					file, _ = c.Vals["file"].(string)
+				}
+			case "logfmt":
+				pairs, err := vlib.ParseLogfmtRecord(p)
+				if err != nil {
+					t.Fatalf("C18: %v: %q", err, p)
+				}
+				for _, pr := range pairs {
+					if pr.Key == "caller.file" {
+						file = pr.Str
+					}
+				}
+			default:
+				txt := strings.TrimSuffix(vlib.SimulateSGR(p).Text, "\n")
+				f := strings.Fields(txt)
+				if len(f) >= 2 {
+					tail := f[len(f)-2]
+					if i := strings.LastIndexByte(tail, ':'); i > 0 {
+						file = tail[:i]
+					}
 				}
 			}
-		default:
-			txt := strings.TrimSuffix(vlib.SimulateSGR(p).Text, "\n")
-			f := strings.Fields(txt)
-			if len(f) >= 2 {
-				tail := f[len(f)-2]
-				if i := strings.LastIndexByte(tail, ':'); i > 0 {
-					file = tail[:i]
+			h := strings.Join(hist, "; ") + fmt.Sprintf(" flags{privacypath=%v} format=%s record=%d/%d", flagPath, format, round+1, rounds)
+			if file == "" {
+				t.Fatalf("C18 after [%s]: no caller file found in record %q", h, p)
+			}
+			set, _ := allowed(thisFile, ms)
+			applicable := 0
+			for _, m := range ms {
+				if under(thisFile, m.Prefix) {
+					applicable++
 				}
 			}
-		}
-		h := strings.Join(hist, "; ") + fmt.Sprintf(" flags{privacypath=%v} format=%s", flagPath, format)
-		if file == "" {
-			t.Fatalf("C18 after [%s]: no caller file found in record %q", h, p)
-		}
-		set, _ := allowed(thisFile, ms)
-		applicable := 0
-		for _, m := range ms {
-			if under(thisFile, m.Prefix) {
-				applicable++
+			ok := set[file]
+			if !flagPath || applicable == 0 {
+				ok = file == thisFile || equivalentRel(file, thisFile)
 			}
-		}
-		ok := set[file]
-		if !flagPath || applicable == 0 {
-			ok = file == thisFile || equivalentRel(file, thisFile)
-		}
-		if !ok {
-			var want []string
-			for s := range set {
-				want = append(want, s)
+			if !ok {
+				var want []string
+				for s := range set {
+					want = append(want, s)
+				}
+				sort.Strings(want)
+				vlib.Discrep(t, "C18/caller-field", "C18 after [%s]: the record's caller file is %q; Safety policy allows %q (flag on=%v) for %q", h, file, want, flagPath, thisFile)
 			}
-			sort.Strings(want)
-			vlib.Discrep(t, "C18/caller-field", "C18 after [%s]: the record's caller file is %q; Safety policy allows %q (flag on=%v) for %q", h, file, want, flagPath, thisFile)
-		}
-		// and Safety itself must agree with one of the allowed forms
-		if flagPath && applicable > 0 {
-			if s := slog.Safety(thisFile); !set[s] {
-				vlib.Discrep(t, "C18/inside", "C18 after [%s]: Safety(%q) = %q not in %v", h, thisFile, s, set)
+			// and Safety itself must agree with one of the allowed forms
+			if flagPath && applicable > 0 {
+				if s := slog.Safety(thisFile); !set[s] {
+					vlib.Discrep(t, "C18/inside", "C18 after [%s]: Safety(%q) = %q not in %v", h, thisFile, s, set)
+				}
 			}
-		}
-		key := ""
-		if len(ms) > 2 || !flagPath {
-			key = h
-		}
-		vlib.Case("TestCallerField", key, "format="+format, fmt.Sprintf("flag=%v", flagPath))
-		if key != "" && vlib.WantSample("TestCallerField") {
-			vlib.Sample("TestCallerField", map[string]any{"tables": hist, "format": format, "caller_file": file})
+			key := ""
+			if len(ms) > 2 || !flagPath {
+				key = h
+			}
+			vlib.Case("TestCallerField", key, "format="+format, fmt.Sprintf("flag=%v", flagPath))
+			if key != "" && vlib.WantSample("TestCallerField") {
+				vlib.Sample("TestCallerField", map[string]any{"tables": hist, "format": format, "caller_file": file})
+			}
+			hist = append(hist, fmt.Sprintf("record(privacypath=%v)", flagPath))
 		}
 	})
 }
